@@ -374,7 +374,7 @@ func classifyC20(sc *Scenario, h *History, st *Stats) string {
 func init() {
 	register(&Property{
 		ID: "C20", Level: "exploration", Race: true,
-		Rule:     "1-3 connections, each running one of seven transfer patterns (chunk-RSET-chunk with slow stale deliveries, LMTP DATA with parked statuses, QUIT or disconnect inside a chunked transfer, two DATA transactions, idle) with drawn pauses between steps, plus 0-3 Server.Close / Shutdown(ctx with a fake deadline of 0, 2ms, 50ms, 1s) calls at drawn instants - overlapping through the VerifYield hook in half of the multi-call runs - and scripted temporary/permanent Accept errors and a failing listener Close. Every scenario runs twice: in the plain build (deadlock, leak, linearizability of Close/Shutdown against an open->closed register with porcupine, Serve's result, Shutdown's waiting) and in a -race build where the Go race detector is the oracle. Distinct by (patterns, admin calls, yield, event shape); every case is non-trivial.",
+		Rule:     "1-3 connections, each running one of seven transfer patterns (chunk-RSET-chunk with slow stale deliveries, LMTP DATA with parked statuses, QUIT or disconnect inside a chunked transfer, two DATA transactions, idle) with drawn pauses between steps, plus 0-3 Server.Close / Shutdown(ctx with a fake deadline of 0, 2ms, 50ms, 1s) calls at drawn instants - overlapping through the VerifYield hook in half of the multi-call runs - and scripted temporary/permanent Accept errors and a failing listener Close. Every scenario runs twice: in the plain build (deadlock, leak, linearizability of Close/Shutdown against an open->closed register with porcupine, Serve's result, Shutdown's waiting) and in a -race build where the Go race detector is the oracle. Distinct by (patterns, admin calls, yield, event shape); every case is non-trivial. A reply write blocked by a peer that does not read (for ever, 3 ms, 30 s) while Close/Shutdown run; a backend whose Logout fails.",
 		Gen:      genC20,
 		Check:    checkC20,
 		Classify: classifyC20,
